@@ -8,7 +8,7 @@ from core import BaseProp, Verdict
 from proto import T
 
 RULE = ('random tables under random assignments of the exception flags (and, exhaustively, every assignment for tables of <= 4 '
-        'symbols) x texts with WITH in every position (valid, misplaced, chained, in parentheses), default and simple tokenizer; '
+        'symbols) x texts with WITH in every position (valid, misplaced, chained, in parentheses), default and simple tokenizer; three tables in ten given as symbol-like user objects (wrapped by Licensing) instead of LicenseSymbols; roles judged by the flags of the table as given; '
         'Spec on the real code: strict accepted <=> non-strict accepted and every WITH has a non-exception on the left and an '
         'exception on the right and no exception stands alone; accepted => same result; rejected for roles => code 101/102 and the '
         'token is an offending license at its position; non-strict outcome does not depend on the flags. Correspondence: outcomes with '
@@ -16,10 +16,16 @@ RULE = ('random tables under random assignments of the exception flags (and, exh
 ASSUMPTIONS = ['unknown licenses count as non-exceptions']
 
 
-def roles(ptoks):
-    """(ok?, offending word-start positions are checked separately)"""
+def roles(ptoks, table):
+    """the licenses whose role is wrong *by the flags of the table* (an unknown license is not an exception)"""
+    flag = {k: bool(ex) for k, al, ex in table}
     bad = []
     for p in ptoks:
+        p = list(p)
+        if p[0] == 'sym':
+            p[2] = flag.get(p[1], False)
+        elif p[0] == 'with':
+            p[2], p[4] = flag.get(p[1], False), flag.get(p[3], False)
         if p[0] == 'sym' and p[2]:
             bad.append(('bare', p))
         elif p[0] == 'with':
@@ -51,7 +57,7 @@ class Prop(BaseProp):
         if rng.random() < 0.5:
             keys = [k for k, _, _ in table if not set(k.lower().split()) & {'and', 'or', 'with'}] + ['zq', 'foo']
             t = gen.gen_tree(rng, keys, depth=rng.randint(0, 2), maxar=3, with_p=0.5, flags=False)
-            return {'table': table, 'text': gen.tree_text(rng, t), 'simple': rng.random() < 0.2, 'mask': rng.randrange(16)}
+            return {'table': table, 'text': gen.tree_text(rng, t), 'simple': rng.random() < 0.2, 'mask': rng.randrange(16), 'records': rng.random() < 0.3}
         n = rng.randint(1, 7)
         items = []
         for _ in range(n):
@@ -65,13 +71,13 @@ class Prop(BaseProp):
             else:
                 items.append(rng.choice('()'))
         text = ' '.join(items) if rng.random() < 0.7 else gen.blank_run(rng).join(items)
-        return {'table': table, 'text': text, 'simple': rng.random() < 0.3, 'mask': rng.randrange(16)}
+        return {'table': table, 'text': text, 'simple': rng.random() < 0.3, 'mask': rng.randrange(16), 'records': rng.random() < 0.3}
 
     def eval_case(self, drv, case):
         table, text, simple = case['table'], case['text'], case['simple']
         if not impl.lower_is_charwise(text):
             return Verdict('skip', case)
-        lic = P.licensing(table)
+        lic = P.licensing(table, records=bool(case.get('records')))
         lax = impl.parse_c(lic, text, strict=False, simple=simple)
         strict = impl.parse_c(lic, text, strict=True, simple=simple)
         il = impl.ltok_c(lic, text, strict=False, simple=simple)
@@ -79,7 +85,7 @@ class Prop(BaseProp):
         for o in (lax, strict):
             if P.err_class(o) == 'other':
                 return Verdict('spec', case, 'foreign exception ' + o[1], impl=[lax, strict], tags=tags)
-        bad = roles(il[1]) if P.is_ok(il) else []
+        bad = roles(il[1], table) if P.is_ok(il) else []
         nontrivial = P.is_ok(il) and any(p[0] == 'with' or (p[0] == 'sym' and p[2]) for p in il[1])
         if P.is_ok(strict):
             if not P.is_ok(lax) or bad:
